@@ -2,7 +2,7 @@
    Only ExtrOcamlBasic is used: N, positive and nat stay the extracted datatypes. *)
 From Coq Require Import Extraction ExtrOcamlBasic.
 From Snaps Require Import Base.Bytes Base.Lines Base.Dec Base.Assoc.
-From Snaps Require Import Model.Frame Model.PathModel Model.Mode Model.Api Model.Json Model.Matchers Model.Difflib Model.Report Model.Natural Model.Clean Model.Summary Model.Caller Model.Sched.
+From Snaps Require Import Model.Frame Model.PathModel Model.Mode Model.Api Model.Json Model.Matchers Model.Difflib Model.Report Model.ScriptGen Model.Natural Model.Clean Model.Summary Model.Caller Model.Sched.
 
 Extraction Language OCaml.
 Extraction "model.ml" init_state step run get_prev add_entry update_entry escape unescape
@@ -14,4 +14,5 @@ Extraction "model.ml" init_state step run get_prev add_entry update_entry escape
   init_cfg next_ev enabled sched_step run_sched finished outcomes final_file
   run_serial group_outcomes lin_order call_atomic tally_of
   summary clean_stdout read_summary sumdata_of_result sumread_of strip_ansi
-  apply_matchers_snapshot parse.
+  apply_matchers_snapshot parse
+  valid_script groups_of_script report_of_script.
